@@ -397,9 +397,23 @@ def rule_evaluation_order(check, rule):
             check.violation(rule, st0, 'no handler for %s: the body is visited once in source order, so a rebinding later in the body does not reach '
                             'a forwarding call earlier in the body, although it does on the next iteration' % cname, key=key,
                             witness='for x in xs:\n    inner(*args, **kwargs)\n    kwargs = {}')
-        elif _prescans_stores(h) or _visits_body_twice(h):
-            check.holds(rule, site_of(h, h.node), 'visit_%s accounts for the back-edge (names rebound anywhere in the loop are invalidated before the '
-                        'body / the body is re-visited)' % cname, key=key)
+        elif _visits_body_twice(h):
+            check.holds(rule, site_of(h, h.node), 'visit_%s accounts for the back-edge: the body is traversed twice, so the calls are recorded with '
+                        'the names as a whole iteration leaves them' % cname, key=key)
+            # the calls recorded by the first traversal must be dropped, or every forwarding call of a loop counts twice
+            k2 = 'order|%s|discard' % cname
+            dels = [d_ for d_ in ast.walk(h.node) if isinstance(d_, ast.Delete) and any('calls' in norm(t_) for t_ in d_.targets)]
+            trunc = [a_ for a_ in ast.walk(h.node) if isinstance(a_, ast.Assign) and any(isinstance(t_, ast.Subscript) and 'calls' in norm(t_.value)
+                                                                                        for t_ in a_.targets)]
+            if dels or trunc:
+                check.holds(rule, site_of(h, (dels or trunc)[0]), 'visit_%s drops what the first traversal recorded' % cname, key=k2)
+            else:
+                check.violation(rule, site_of(h, h.node), 'visit_%s traverses the body twice and keeps the calls of both traversals' % cname, key=k2)
+        elif _prescans_stores(h):
+            check.violation(rule, site_of(h, h.node), 'visit_%s invalidates up front only the names *rebound* in the loop: a later statement of the body '
+                            'that mutates a name or hands it to other code (which invalidates it in straight-line code) does not reach the '
+                            'forwarding call earlier in the body, although it does from the second iteration on' % cname, key=key,
+                            witness="for i in range(2):\n    r = inner(*a, **k)\n    k['z'] = 1")
         else:
             check.violation(rule, site_of(h, h.node), 'visit_%s visits the body once without invalidating names rebound later in it' % cname, key=key,
                             witness='for x in xs:\n    inner(*args, **kwargs)\n    kwargs = {}')
@@ -1115,6 +1129,34 @@ def rule_nested_scope_effects(check, rule):
     elif recheck is not None:
         check.holds(rule, site_of(init, recheck[0]), 'after the deferred calls of nested scopes, the recorded calls are re-evaluated against what those '
                     'scopes tainted (%s)' % recheck[1].name, key=key)
+        # ... all of them: the deferred calls are processed in the order the nested functions are written, so a forwarding call in
+        # an earlier nested function is recorded before a later nested function's taint arrives, just like a call of the main body
+        key2 = 'nested|late-taint-coverage'
+        loop_ = None
+        t_ = recheck[0]
+        while getattr(t_, '_parent', None) is not None and t_ is not init.node:
+            if isinstance(t_, (ast.For, ast.While, ast.ListComp, ast.GeneratorExp)):
+                loop_ = t_
+            t_ = t_._parent
+        it_txt = None
+        if isinstance(loop_, ast.For):
+            it_txt = loop_.iter
+        elif isinstance(loop_, (ast.ListComp, ast.GeneratorExp)):
+            it_txt = loop_.generators[0].iter
+        if it_txt is None:
+            check.inconclusive(rule, site_of(init, recheck[0]), 'what the re-evaluation ranges over is not understood', key=key2)
+        else:
+            partial_ = [x for x in ast.walk(it_txt) if isinstance(x, ast.Subscript) and isinstance(x.slice, ast.Slice)]
+            whole = any(isinstance(x, ast.Attribute) and x.attr == 'calls' for x in ast.walk(it_txt))
+            if partial_:
+                check.violation(rule, site_of(init, recheck[0]), 'only a slice of the recorded calls (%s) is re-evaluated against the late taints: a '
+                                'forwarding call inside a nested function written before the tainting one keeps its pristine star arguments'
+                                % norm(partial_[0])[:50], key=key2,
+                                witness="def f(*a, **k):\n    def h1(): return inner(*a, **k)\n    def h2(): k.pop('y', None)\n    h2(); return h1()")
+            elif whole:
+                check.holds(rule, site_of(init, recheck[0]), 'every recorded call is re-evaluated', key=key2)
+            else:
+                check.inconclusive(rule, site_of(init, recheck[0]), 'the re-evaluation ranges over %s' % norm(it_txt)[:60], key=key2)
     else:
         check.violation(rule, site_of(init, loops[-1]), 'calls inside nested functions are analysed after the main body, and the taint they put on '
                         '*args/**kwargs (a method called on it) arrives after the forwarding calls of the main body were recorded with their star '
